@@ -1,25 +1,124 @@
 package pilosa
 
 import (
+	"fmt"
+	"math/rand"
 	"reflect"
+	"sort"
 	"testing"
 )
 
-func TestWitness_C11_MergeBlockSetsAndClears(t *testing.T) {
-	f := mustOpenFragment("i", "f", viewStandard, 0, "")
-	defer f.Clean(t)
-	f.mustSetBits(0, 1, 2, 3)
-	// replica A holds only {9}; replica B agrees with local.
-	a := pairSet{rowIDs: []uint64{0}, columnIDs: []uint64{9}}
-	b := pairSet{rowIDs: []uint64{0, 0, 0}, columnIDs: []uint64{1, 2, 3}}
-	sets, clears, err := f.mergeBlock(0, []pairSet{a, b})
-	if err != nil {
-		t.Fatal(err)
-	}
-	if !reflect.DeepEqual(sets[0].columnIDs, []uint64{1, 2, 3}) {
-		t.Errorf("sets for A = %v", sets[0].columnIDs)
-	}
-	if !reflect.DeepEqual(clears[0].columnIDs, []uint64{9}) {
-		t.Errorf("clears for A = %v, want [9]", clears[0].columnIDs)
+func TestWitness_C11_MergeBlockMajority(t *testing.T) {
+	type bit struct{ r, c uint64 }
+	for _, shard := range []uint64{0, 3} {
+		for seed := int64(1); seed <= 40; seed++ {
+			t.Run(fmt.Sprintf("shard%d/seed%d", shard, seed), func(t *testing.T) {
+				rng := rand.New(rand.NewSource(seed))
+				f := mustOpenFragment("i", "f", viewStandard, shard, "")
+				defer f.Clean(t)
+				nRemote := 1 + rng.Intn(4)
+				blockID := rng.Intn(2)
+				// candidate positions: rows of block 0, 1 and 2; a few columns
+				var cands []bit
+				for _, r := range []uint64{0, 1, 99, 100, 101, 199, 200} {
+					for _, c := range []uint64{0, 1, 65536, ShardWidth - 1} {
+						cands = append(cands, bit{r, c})
+					}
+				}
+				contents := make([]map[bit]bool, nRemote+1)
+				for i := range contents {
+					contents[i] = map[bit]bool{}
+					for _, b := range cands {
+						if rng.Intn(3) == 0 {
+							contents[i][b] = true
+						}
+					}
+				}
+				for b := range contents[0] {
+					if _, err := f.setBit(b.r, shard*ShardWidth+b.c); err != nil {
+						t.Fatal(err)
+					}
+				}
+				inBlock := func(b bit) bool { return int(b.r/HashBlockSize) == blockID }
+				var data []pairSet
+				for i := 1; i <= nRemote; i++ {
+					var bs []bit
+					for b := range contents[i] {
+						if inBlock(b) {
+							bs = append(bs, b)
+						}
+					}
+					sort.Slice(bs, func(x, y int) bool {
+						if bs[x].r != bs[y].r {
+							return bs[x].r < bs[y].r
+						}
+						return bs[x].c < bs[y].c
+					})
+					var ps pairSet
+					for _, b := range bs {
+						ps.rowIDs = append(ps.rowIDs, b.r)
+						ps.columnIDs = append(ps.columnIDs, b.c)
+					}
+					data = append(data, ps)
+				}
+				sets, clears, err := f.mergeBlock(blockID, data)
+				if err != nil {
+					t.Fatal(err)
+				}
+				// majority per candidate in the block (ties -> set)
+				want := map[bit]bool{}
+				for _, b := range cands {
+					if !inBlock(b) {
+						continue
+					}
+					n := 0
+					for i := range contents {
+						if contents[i][b] {
+							n++
+						}
+					}
+					if 2*n >= nRemote+1 {
+						want[b] = true
+					}
+				}
+				// local
+				for _, b := range cands {
+					got := f.row(b.r).Columns()
+					has := false
+					for _, c := range got {
+						if c == shard*ShardWidth+b.c {
+							has = true
+						}
+					}
+					exp := contents[0][b]
+					if inBlock(b) {
+						exp = want[b]
+					}
+					if has != exp {
+						t.Fatalf("local bit (%d,%d): has=%v want=%v (block %d, remotes %d)", b.r, b.c, has, exp, blockID, nRemote)
+					}
+				}
+				if len(sets) != nRemote || len(clears) != nRemote {
+					t.Fatalf("got %d/%d diffs for %d remotes", len(sets), len(clears), nRemote)
+				}
+				for i := 1; i <= nRemote; i++ {
+					after := map[bit]bool{}
+					for b := range contents[i] {
+						if inBlock(b) {
+							after[b] = true
+						}
+					}
+					for k := range sets[i-1].rowIDs {
+						after[bit{sets[i-1].rowIDs[k], sets[i-1].columnIDs[k]}] = true
+					}
+					for k := range clears[i-1].rowIDs {
+						delete(after, bit{clears[i-1].rowIDs[k], clears[i-1].columnIDs[k]})
+					}
+					if !reflect.DeepEqual(after, want) && len(after)+len(want) > 0 {
+						t.Fatalf("remote %d after applying its diff: %v, want %v", i, after, want)
+					}
+				}
+			})
+		}
 	}
 }
